@@ -386,10 +386,10 @@ type Finding struct {
 // runResult is one engine's run of a scenario.
 type runResult struct {
 	Obs      []Obs
-	Mismatch int    // step index of the first deciding mismatch that stopped the run, -1
-	Kind     string // mismatch kind at that step
+	Mismatch int       // step index of the first deciding mismatch that stopped the run, -1
+	Kind     string    // mismatch kind at that step
 	Soft     []softMis // mismatching steps after which the run continued
-	Info     string // compatible import rejected (information, run stopped)
+	Info     string    // compatible import rejected (information, run stopped)
 	Executed int
 }
 
@@ -424,6 +424,12 @@ func runEngine(sc *Scenario, compiler bool) (rr runResult, err error) {
 			}
 			if k == "unexpected-failure" && strings.Contains(o.Err, "import ") {
 				rr.Info = o.Err
+				return rr, nil
+			}
+			if k == "unexpected-failure" && st.Tag == "const-expr:global.get-mutable-import" && strings.HasPrefix(o.Err, "compile:") {
+				// the module is invalid per the specification (global.get of a mutable global in a constant
+				// expression); only IF it is accepted must it capture the current value
+				rr.Info = "lenient-const-expr-rejected: " + o.Err
 				return rr, nil
 			}
 		}
@@ -559,7 +565,7 @@ func decide(sc *Scenario) scenarioResult {
 		}
 	}
 	if ri.Info != "" || rc.Info != "" {
-		res.Info = append(res.Info, "compatible-import-rejected: interpreter="+ri.Info+" compiler="+rc.Info)
+		res.Info = append(res.Info, "interpreter="+ri.Info+" compiler="+rc.Info)
 		if (ri.Info == "") != (rc.Info == "") && ri.Mismatch < 0 && rc.Mismatch < 0 {
 			add("link:engines-differ:compatible-import", "interpreter: "+ri.Info+" / compiler: "+rc.Info, 0, ri.Obs)
 		}
